@@ -89,6 +89,8 @@ func c05Tree(base, name string, meta c05Meta) *harness.MemFS {
 	fs.Add(webdav.FileInfo{Path: base + "/d/" + name + ".dir", IsDir: true}, "")
 	fs.Add(fi(base+"/d/"+name+".dir/"+name), "DATA")
 	fs.Add(webdav.FileInfo{Path: base + "/other", Size: 1, ETag: "o"}, "o")
+	// a file lacking every optional property, listed after files that have them
+	fs.Add(webdav.FileInfo{Path: base + "/d/zz-bare", Size: 2}, "zz")
 	return fs
 }
 
@@ -177,7 +179,7 @@ func c05JudgeMem(c c05Case) (clause, detail string) {
 		if err != nil {
 			return "readdir-error", err.Error()
 		}
-		wantPaths := []string{base + "/d", base + "/d/" + c.Name, base + "/d/" + c.Name + ".dir"}
+		wantPaths := []string{base + "/d", base + "/d/" + c.Name, base + "/d/" + c.Name + ".dir", base + "/d/zz-bare"}
 		if recursive {
 			wantPaths = append(wantPaths, base+"/d/"+c.Name+".dir/"+c.Name)
 		}
@@ -374,6 +376,21 @@ func c05JudgeLocal(c c05Case) (clause, detail string) {
 		b, err := os.ReadFile(filepath.Join(root, "d", c.Name+"-new"))
 		if err != nil || string(b) != "abc\x00def" {
 			return "create-bytes", fmt.Sprintf("%q %v", b, err)
+		}
+		// replace an existing, longer file: exactly the new bytes must be stored
+		wc, err = cl.Create(ctx, arg("d/"+c.Name))
+		if err != nil {
+			return "create-error", err.Error()
+		}
+		io.WriteString(wc, "S")
+		if err := wc.Close(); err != nil {
+			return "create-close", err.Error()
+		}
+		if b, err := os.ReadFile(filepath.Join(root, "d", c.Name)); err != nil || string(b) != "S" {
+			return "create-replace-bytes", fmt.Sprintf("%q %v", b, err)
+		}
+		if fi, err := cl.Stat(ctx, arg("d/"+c.Name)); err != nil || fi.Size != 1 {
+			return "create-replace-size", fmt.Sprintf("%+v %v", fi, err)
 		}
 	case "mkdir":
 		if err := cl.Mkdir(ctx, arg(c.Name+"-newdir")); err != nil {
